@@ -337,6 +337,9 @@ type RawCase struct {
 	Nm    *NormalCfg  `json:"normal,omitempty"`
 	X     *XCfg       `json:"x,omitempty"`
 	Chunk *[3]int     `json:"chunk,omitempty"`
+	Full  *FullCfg    `json:"full,omitempty"`
+	Saga  *SagaCfg    `json:"saga,omitempty"`
+	Num   *NumericCfg `json:"numeric,omitempty"`
 	Out   string      `json:"out,omitempty"`
 	Panic string      `json:"panic,omitempty"`
 }
@@ -345,6 +348,9 @@ const header = "From Coq Require Import ZArith List Bool QArith Floats.\nFrom AD
 
 type gen struct {
 	w    *CaseWriter
+	ow   *CaseWriter // option-matrix cases (CorrCfg.ocase)
+	sw   *CaseWriter // SAGA cases (CorrCfg.sagacase)
+	noTransPanics bool
 	tol  *tolWriter
 	rng  *Rng
 	tier string
@@ -681,6 +687,15 @@ func corr(o Opts) {
 	w.Type = "case"
 	w.Rule = "a case is non-trivial iff the pool has >= 2 threads and the step has >= 2 jobs (or it is an error-injection / chunk-probe / cross-pool case)"
 	g := &gen{w: w, tol: &tolWriter{dir: o.Out, per: 12}, rng: r, tier: o.Tier}
+	g.ow = NewCaseWriter(o.Out, "ocases", oheader, "omism", 30)
+	g.ow.Type = "ocase"
+	g.ow.Rule = "an option-matrix case is non-trivial iff the pool has >= 2 threads and the step has >= 2 jobs"
+	g.sw = NewCaseWriter(o.Out, "sagacases", oheader, "sagamism", 200)
+	g.sw.Type = "sagacase"
+	g.sw.Rule = "a SAGA case is non-trivial iff the pool has >= 2 threads"
+	var ntp string
+	g.noTransPanics, ntp = bwNoTransPanics()
+	g.ow.Extra["bw_no_transitions_panics"] = map[string]interface{}{"panics": g.noTransPanics, "message": ntp}
 	// corpus first
 	if o.Extra != "" {
 		if b, err := os.ReadFile(o.Extra); err == nil {
@@ -710,6 +725,12 @@ func corr(o Opts) {
 		if i%2 == 0 {
 			g.errCases(r.Split())
 		}
+		g.emOptCases(genEm(r.Split()), i%2 == 0)
+		g.bwOptCases(genBw(r.Split()), i%2 == 1)
+		g.fullCases(genFull(r.Split()))
+		g.fullCases(genFull(r.Split()))
+		g.sagaCases(genSaga(r.Split()))
+		g.numericCases(genNumeric(r.Split()))
 	}
 	g.chunkCases(r.Split(), 3*unit)
 	w.Extra["threads_observed"] = map[string]int{"parallel_steps": g.runs, "thread0_used": g.used0, "thread0_never_used": g.unused0, "some_worker_never_used": g.unusedAny}
@@ -720,10 +741,26 @@ func corr(o Opts) {
 	if err := g.tol.flush(); err != nil {
 		Die("tol flush: %v", err)
 	}
+	if err := g.ow.Flush(); err != nil {
+		Die("flush: %v", err)
+	}
+	if err := g.sw.Flush(); err != nil {
+		Die("flush: %v", err)
+	}
 }
 
 func (g *gen) replayInto(rc *RawCase) {
 	switch {
+	case rc.Em != nil && rc.Em.FailAt < 0 && (rc.Em.NoEmis || rc.Em.NoWeights || rc.Site == "em-opt"):
+		g.emOptCases(rc.Em, true)
+	case rc.Bw != nil && rc.Bw.FailRec < 0 && (rc.Bw.NoEmis || rc.Bw.NoTrans || rc.Site == "bw-opt"):
+		g.bwOptCases(rc.Bw, true)
+	case rc.Full != nil:
+		g.fullCases(rc.Full)
+	case rc.Saga != nil:
+		g.sagaCases(rc.Saga)
+	case rc.Num != nil:
+		g.numericCases(rc.Num)
 	case rc.Em != nil && rc.Em.FailAt < 0:
 		g.emCases(rc.Em, 1)
 	case rc.Bw != nil && rc.Bw.FailRec < 0:
@@ -742,6 +779,7 @@ func main() {
 	if runtime.GOARCH != "amd64" {
 		Die("c17: bit-exact float replay assumes amd64 (no fused multiply-add)")
 	}
+	noTransUnsafe, _ = bwNoTransPanics()
 	switch {
 	case o.Extra == "race":
 		raceMain(o)
